@@ -1,4 +1,5 @@
 import EdVerif.Proofs.PointLayer
+import EdVerif.Proofs.Closing
 /-!
 C13 — extended-coordinate import/export is validated and faithful.
 
@@ -9,21 +10,21 @@ C13 — extended-coordinate import/export is validated and faithful.
 namespace EdVerif.Props
 open EdVerif.Impl EdVerif.Prims EdVerif.Proofs EdVerif.Spec
 
-theorem C13 (ff : FieldFacts) {X Y Z T : Fe} (hX : Fe.Inv X) (hY : Fe.Inv Y) (hZ : Fe.Inv Z)
+theorem C13 {X Y Z T : Fe} (hX : Fe.Inv X) (hY : Fe.Inv Y) (hZ : Fe.Inv Z)
     (hT : Fe.Inv T) :
     (∃ P, Point.setExtendedCoordinates X Y Z T = some P) ↔
-      Spec.ExtValid (toZ X) (toZ Y) (toZ Z) (toZ T) := Proofs.C13 ff hX hY hZ hT
+      Spec.ExtValid (toZ X) (toZ Y) (toZ Z) (toZ T) := Proofs.C13 fieldFacts hX hY hZ hT
 
 theorem C13_value {X Y Z T : Fe} {P : P3} (h : Point.setExtendedCoordinates X Y Z T = some P) :
     P = ⟨X, Y, Z, T⟩ := Proofs.C13_value h
 
-theorem C13_valid (ff : FieldFacts) {X Y Z T : Fe} (hX : Fe.Inv X) (hY : Fe.Inv Y) (hZ : Fe.Inv Z)
+theorem C13_valid {X Y Z T : Fe} (hX : Fe.Inv X) (hY : Fe.Inv Y) (hZ : Fe.Inv Z)
     (hT : Fe.Inv T) {P : P3} (h : Point.setExtendedCoordinates X Y Z T = some P) :
     P.Valid ∧ P.toEd = Spec.toEd (toZ X) (toZ Y) (toZ Z) (toZ T) ∧
-      P.toEd.x = toZ X / toZ Z ∧ P.toEd.y = toZ Y / toZ Z := Proofs.C13_valid ff hX hY hZ hT h
+      P.toEd.x = toZ X / toZ Z ∧ P.toEd.y = toZ Y / toZ Z := Proofs.C13_valid fieldFacts hX hY hZ hT h
 
-theorem C13_roundtrip (ff : FieldFacts) {P : P3} (hP : P.Valid) :
-    Point.setExtendedCoordinates P.x P.y P.z P.t = some P := Proofs.C13_roundtrip ff hP
+theorem C13_roundtrip {P : P3} (hP : P.Valid) :
+    Point.setExtendedCoordinates P.x P.y P.z P.t = some P := Proofs.C13_roundtrip fieldFacts hP
 
 /-- non-vacuity: a valid quadruple exists -/
 example : ∃ P : P3, P.Valid ∧ P.toEd = 0 := Proofs.exists_valid
